@@ -65,6 +65,7 @@ def fixed_length(ty):
 
 
 def crc_table(cls):
+    """The byte-wise transition table of a CRC class: table[i] = running value after byte i from running value 0."""
     t = getattr(cls, "_table", None)
     if t is None:
         cands = []
@@ -72,10 +73,14 @@ def crc_table(cls):
             for name, v in vars(k).items():
                 if isinstance(v, (list, tuple)) and len(v) == 256 and all(type(x) is int for x in v):
                     cands.append((name, v))
-        if len(cands) != 1:
-            raise ValueError("cannot tell which attribute of %s is its lookup table (%s)" % (cls.__name__, [c[0] for c in cands]))
-        used_behaviour["%s.table" % cls.__name__] = "the one 256-entry integer table of the class (%s)" % cands[0][0]
-        t = cands[0][1]
+        if len(cands) == 1:
+            used_behaviour["%s.table" % cls.__name__] = "the one 256-entry integer table of the class (%s)" % cands[0][0]
+            t = cands[0][1]
+        else:
+            # no table to read on the class: the table the model needs IS the one-byte transition function from the
+            # running value 0, observable through the public constructor (initial_string, initial_start) and digest()
+            t = [int(cls(bytes([i]), 0).digest()) for i in range(256)]
+            used_behaviour["%s.table" % cls.__name__] = "digest of each single byte from the running value 0 (public interface)"
     return list(t)
 
 
@@ -83,8 +88,5 @@ def crc_start(cls):
     o = cls()
     if hasattr(o, "_sum"):
         return o._sum
-    cands = [(k, v) for k, v in vars(o).items() if type(v) is int]
-    if len(cands) != 1:
-        raise ValueError("cannot tell which attribute of a fresh %s holds its running value (%s)" % (cls.__name__, [c[0] for c in cands]))
-    used_behaviour["%s.start" % cls.__name__] = "the one integer attribute of a fresh object (%s)" % cands[0][0]
-    return cands[0][1]
+    used_behaviour["%s.start" % cls.__name__] = "digest of the empty input (public interface)"
+    return int(o.digest())
